@@ -14,7 +14,8 @@ Docs == {"link", "layout"}
 
 MCInit ==
   /\ ctor \in {"new", "build"}
-  /\ signers \in {<<"k1">>, <<"k1", "k2">>, <<"k1", "k2", "k3">>, <<"k1", "k1">>, <<"k2", "k1", "k2">>}
+  /\ signers \in {<<"k1">>, <<"k1", "k2">>, <<"k1", "k2", "k3">>, <<"k1", "k1">>, <<"k2", "k1", "k2">>,
+                  <<"k1", "k1b">>, <<"k1b", "k2", "k1">>}   \* k1b: k1's key material under another valid declaration (another id)
   /\ fmt \in {"compact", "pretty", "cjson", "cjson_pretty"}   \* serde_json compact / pretty, Json / JsonPretty interchange
   /\ str \in StrsFor
   /\ field \in Docs
